@@ -23,7 +23,7 @@ def decodeText (t : String) : Option Str := if t == "-" then some [] else unhex 
 inductive Expect where
   | any
   | rej (cls : String)
-  | wf (S A O : Nat) (disc : XRat) (stmts : List (Char × Stmt))
+  | wf (S A O : Nat) (disc : XRat) (stmts : List (Char × Stmt)) (vals : List (String × String × XRat))
 
 def pSel : P Sel := do
   let t ← P.tok
@@ -53,7 +53,9 @@ def pExpect : P Expect := do
   else if t == "wf" then do
     let S ← P.nat; let A ← P.nat; let O ← P.nat; let d ← P.x
     let st ← P.list pStmt
-    pure (.wf S A O d st)
+    P.lit "vals"
+    let vals ← P.list (do let t ← P.tok; let e ← P.tok; let x ← P.x; pure (t, e, x))
+    pure (.wf S A O d st vals)
   else P.fail
 
 structure ImplParse where
@@ -116,20 +118,62 @@ def expRewards (T R : List XRat) (nrows S : Nat) : Option (List Rat) :=
 def closeList (a : List Rat) (b : List XRat) : Bool :=
   a.length == b.length && (a.zip b).all fun (x, y) => match y with | .fin q => closeQ (1 / 1000000000) x q | _ => false
 
-/-- array replay of a write trace (linear time); equals `tableList` (cross-checked below on small tables, and the
-    in-bounds guard is redundant by `parse_writes_in_bounds`) -/
-def replay (ws : List Write) (D1 D2 D3 : Nat) : List XRat :=
-  let arr := ws.foldl (fun (a : Array XRat) w =>
-      if w.d1 < D1 && w.a < D2 && w.d3 < D3 then a.set! (offset D2 D3 w) w.v else a) (Array.replicate (D1 * D2 * D3) (XRat.fin 0))
-  arr.toList
-
-def tableOf (ws : List Write) (D1 D2 D3 : Nat) : List XRat :=
-  if D1 * D2 * D3 ≤ 64 then tableList ws D1 D2 D3 else replay ws D1 D2 D3
+/-- the table of a write trace, in linear time; `replayList_eq_tableList` (Props.C18k) proves it equal to `tableList` -/
+def tableOf (ws : List Write) (D1 D2 D3 : Nat) : List XRat := replayList ws D1 D2 D3
 
 def containsHex : Str → Bool
   | '0' :: x :: r => (x == 'x' || x == 'X') || containsHex (x :: r)
   | _ :: r => containsHex r
   | [] => false
+
+/-- L2b: operational model vs implementation, on one parser outcome -/
+def diffParse (isP : Bool) (mp : R Parsed) (ip : Except String ImplParse) (v : Verdict) : Verdict :=
+  match mp, ip with
+    | .error e, .error c => v.diffIf (e.name != c) s!"CassandraParser error class model={e.name} impl={c}"
+    | .error e, .ok _ => v.diffIf true s!"CassandraParser model rejects ({e.name}), impl accepts"
+    | .ok _, .error c => v.diffIf true s!"CassandraParser model accepts, impl rejects ({c})"
+    | .ok r, .ok i =>
+        let p := r.pre
+        let v := v.diffIf (p.S != i.S || p.A != i.A || (isP && p.O != i.O)) s!"CassandraParser sizes model={p.S},{p.A},{p.O} impl={i.S},{i.A},{i.O}"
+        let v := v.diffIf (roundX p.disc != i.disc) s!"CassandraParser discount model={p.disc} impl={i.disc}"
+        let v := v.diffIf ((tableOf r.st.wT p.S p.A p.S).map roundX != i.T) s!"CassandraParser T model={(tableOf r.st.wT p.S p.A p.S)} impl={i.T}"
+        let v := v.diffIf ((tableOf r.st.wR p.S p.A p.S).map roundX != i.R) s!"CassandraParser R model={(tableOf r.st.wR p.S p.A p.S)} impl={i.R}"
+        v.diffIf (isP && (tableOf r.st.wW p.S p.A p.O).map roundX != i.W) s!"CassandraParser W model={(tableOf r.st.wW p.S p.A p.O)} impl={i.W}"
+
+def sameImpl (a b : Except String ImplParse) : Bool :=
+  match a, b with
+  | .error c, .error c' => c == c'
+  | .ok x, .ok y => x.S == y.S && x.A == y.A && x.O == y.O && x.disc == y.disc && x.T == y.T && x.R == y.R && x.W == y.W
+  | _, _ => false
+
+/-- `reuse kind hexA hexB | fresh-outcome reused-outcome` : text B on a parser object that parsed text A before -/
+def reuseCmd : P String := do
+  let kt ← P.tok
+  let k : Kind := if kt == "pomdp" then .pomdp else .mdp
+  let ha ← P.tok
+  let hb ← P.tok
+  P.bar
+  let fresh ← pImplParse
+  let reused ← pImplParse
+  P.eof
+  match decodeText ha, decodeText hb with
+  | some ta, some tb =>
+    match parseModelInfo flags (splitLines ta) {} [] with
+    | .error _ => pure "skip reuse_first_preamble_error"
+    | .ok (prev, _) =>
+      let huge : Bool := match parseModelInfo flags (splitLines tb) {} [] with
+        | .ok (p, _) => decide (p.S * p.A * (max p.S p.O) > 100000) || decide (p.S > 1000) || decide (p.A > 1000) || decide (p.O > 1000)
+        | .error _ => false
+      if huge then pure "skip huge_sizes" else
+      let v : Verdict := { tag := "reuse" ++ (match reused with | .ok _ => " accepted" | .error _ => " rejected") }
+      -- model of the reused object (name tables of A carried over) vs the reused implementation object
+      let v := diffParse (k == .pomdp) (parseWith flags k prev tb) reused v
+      -- and the fresh model vs the fresh object
+      let v := diffParse (k == .pomdp) (parse flags k tb) fresh v
+      -- property clause on the implementation's own outputs: nothing of text A survives
+      let v := v.failIf (!(sameImpl fresh reused)) "CassandraParser reuse_differs"
+      pure v.render
+  | _, _ => pure "bad-op hex"
 
 def parseCmd : P String := do
   let kt ← P.tok
@@ -145,7 +189,7 @@ def parseCmd : P String := do
   | some text =>
   -- guard the driver against astronomically large declared sizes BEFORE running the main pass
   -- (a `*` over 2^64-1 actions would be expanded eagerly by the model)
-  let huge : Bool := match parseModelInfo (splitLines text) {} [] with
+  let huge : Bool := match parseModelInfo flags (splitLines text) {} [] with
     | .ok (p, _) => decide (p.S * p.A * (max p.S p.O) > 100000) || decide (p.S > 1000) || decide (p.A > 1000) || decide (p.O > 1000)
     | .error _ => false
   let mp := if huge then .error .runtime else parse flags k text
@@ -161,7 +205,6 @@ def parseCmd : P String := do
     | .ok r, .ok i =>
         let p := r.pre
         let v := v.diffIf (p.S != i.S || p.A != i.A || (isP && p.O != i.O)) s!"CassandraParser sizes model={p.S},{p.A},{p.O} impl={i.S},{i.A},{i.O}"
-        let v := v.diffIf (p.S * p.A * p.S ≤ 64 && replay r.st.wT p.S p.A p.S != tableList r.st.wT p.S p.A p.S) "driver replay differs from tableList"
         let v := v.diffIf (roundX p.disc != i.disc) s!"CassandraParser discount model={p.disc} impl={i.disc}"
         let v := v.diffIf ((tableOf r.st.wT p.S p.A p.S).map roundX != i.T) s!"CassandraParser T model={(tableOf r.st.wT p.S p.A p.S)} impl={i.T}"
         let v := v.diffIf ((tableOf r.st.wR p.S p.A p.S).map roundX != i.R) s!"CassandraParser R model={(tableOf r.st.wR p.S p.A p.S)} impl={i.R}"
@@ -205,7 +248,19 @@ def parseCmd : P String := do
           v.failIf ic.toOption.isSome s!"parseCassandra {cls}_accepted"
         else
           v.failIf ip.toOption.isSome s!"CassandraParser {cls}_accepted"
-    | .wf S A O d stmts =>
+    | .wf S A O d stmts vals =>
+        -- per value token: the model's reading of the literal is EXACTLY the rational the generator meant (no rounding involved),
+        -- and its correctly rounded double is the one libc produced
+        let bad := vals.filter fun (t, e, x) =>
+          match decodeText t with
+          | none => true
+          | some tok =>
+            match stodS flags tok with
+            | .error _ => true
+            | .ok mv =>
+              (roundX mv != x) ||
+              (if e == "-" then false else match parseQ? e with | some q => mv != XRat.fin q | none => true)
+        let v := v.diffIf (!bad.isEmpty) s!"stod value of literal {bad.map (fun (p : String × String × XRat) => p.1)}"
         match ip with
         | .error c => v.failIf true s!"CassandraParser wellformed_rejected {c}"
         | .ok i =>
@@ -218,6 +273,7 @@ def parseCmd : P String := do
 
 def handle : List String → String
   | "parse" :: rest => (P.run parseCmd rest).getD "bad-op"
+  | "reuse" :: rest => (P.run reuseCmd rest).getD "bad-op"
   | _ => "bad-op"
 
 end DrvC18
